@@ -2,6 +2,9 @@
 (* Trace specification for coarsening (C08) and multi-resolution files (C09).    *)
 EXTENDS Coarsen, TraceKit
 
+Lock == INSTANCE CoarsenLock WITH NSpans <- 1, Batch <- 1, LazyMap <- FALSE, YieldInsideLock <- FALSE,
+                                  pc <- 0, holder <- 0, next <- 0, reading <- 0, done <- 0, pending <- 0, writing <- 0, written <- 0
+
 VARIABLE l
 
 All(s, P(_)) == \A k \in DOMAIN s : P(s[k])
@@ -93,8 +96,19 @@ ResSpecClauses(e) ==
   << <<"resSpecAccepted", e.obs.err = "">>,
      <<"resSpecExpansion", e.obs.err # "" \/ Range(e.obs.levels) = want>> >>
 
+(* co.lock: coarsening with worker processes into the file being read: the logged lock / read events must be a
+   behaviour of the reader-writer protocol (CoarsenLock!LockTraceOK), and the result must be right all the same *)
+LockClauses(e) ==
+  << <<"lockProtocol", Lock!LockTraceOK(e.obs.events)>>,
+     <<"workersUsed", \E k \in DOMAIN e.obs.events : e.obs.events[k].e = "RB">>,
+     <<"sourceUntouched", e.obs.base_px = e.case.px>>,
+     <<"pixelsAreBlockAggregates", e.obs.px = CoarsenBy(e.case.table, e.case.k, e.case.px, <<"sum">>)>>,
+     <<"tableIsGrouped", e.obs.table = CoarsenTable(e.case.table, e.case.k)>> >>
+  \o CSRClauses(e.obs.raw)
+
 Clauses(e) ==
   CASE e.drv = "co.coarsen"    -> CoarsenClauses(e)
+    [] e.drv = "co.lock"       -> LockClauses(e)
     [] e.drv = "co.algebra"    -> AlgebraClauses(e)
     [] e.drv = "zm.multiplier" -> MultiplierClauses(e)
     [] e.drv = "zm.zoomify"    -> ZoomClauses(e)
